@@ -11,7 +11,11 @@
 //	      follower a real follower controller fed through its Replicate stream (commit offsets lagging),
 //	      snapshot a second follower that installs a snapshot cut from the first one after offset `off`
 //	               (real chunker with -chunk bytes per chunk, real loader, handleSnapshot) and is fed the rest,
-//	    and the full ordered dumps (all keys except the term keys) of the four DBs must be equal.
+//	      reopen   both followers closed (their databases flush) and re-created on their directories,
+//	    and the full ordered dumps (all keys except the term keys) of the DBs must be equal.  Every replica is
+//	    also READ: each record the specification has after the log (and, for the first follower, after the
+//	    cut: before and after the snapshot flushed its memory) by a point get, and the probes of the route
+//	    record (floor / ceiling / lower / higher gets, range lists and scans) with the answers TLC computed.
 //	routecheck drive -seed S -n N -ops K -out trace.ndjson -res result.json
 //	    the same with random request streams; the leader's execution is recorded for DbTrace.tla.
 //	routecheck rerun -in replay.json -out trace.ndjson -res result.json
@@ -57,11 +61,43 @@ type prepared struct {
 	enc     int
 }
 
-func prepare(e *m.LeaderEngine) (*prepared, error) {
+// demanded is what the specification recorded about the state the routes must arrive at: the step after
+// the whole log (a route record with probes, or the last recorded step) and the steps by offset.
+type demanded struct {
+	final *m.Step
+	byOff map[int]*m.Step
+}
+
+func demandedOf(beh []m.Step, final *m.Step) *demanded {
+	d := &demanded{final: final, byOff: map[int]*m.Step{}}
+	for i := range beh {
+		if beh[i].A == "Write" && beh[i].Err == "" && beh[i].Off >= 0 {
+			d.byOff[beh[i].Off] = &beh[i]
+		}
+	}
+	return d
+}
+
+// finalOf: a route record written by TLC carries the demanded records and probes; one appended to a random
+// stream does not, and the last executed call stands for it.
+func finalOf(route *m.Step, done []m.Step) *m.Step {
+	if len(route.Recs) > 0 || len(route.Gets) > 0 || len(route.Lists) > 0 || len(done) == 0 {
+		return route
+	}
+	return &done[len(done)-1]
+}
+
+func prepare(e *m.LeaderEngine, dem *demanded) (*prepared, error) {
 	p := &prepared{}
 	var err error
 	if p.live, err = e.LiveDump(); err != nil {
 		return nil, fmt.Errorf("dump of the leader: %v", err)
+	}
+	if dem != nil && dem.final != nil {
+		if w := m.CheckReads(e.LiveDB(), e.TsMap(), dem.final); w != "" {
+			p.what = "reads of the leader (live): " + w
+			return p, nil
+		}
 	}
 	if p.entries, err = e.LogEntries(); err != nil {
 		return nil, fmt.Errorf("reading the leader's log: %v", err)
@@ -74,9 +110,18 @@ func prepare(e *m.LeaderEngine) (*prepared, error) {
 		return p, nil
 	}
 	// wal: replay of the whole log by a new leader
-	rd, err := e.ReplayedFromWal()
+	rd, rw, err := e.ReplayedFromWalRead(func(db kv.DB) string {
+		if dem == nil || dem.final == nil {
+			return ""
+		}
+		return m.CheckReads(db, e.TsMap(), dem.final)
+	})
 	if err != nil {
 		p.what = "route wal (new leader on the same WAL, empty DB): " + err.Error()
+		return p, nil
+	}
+	if rw != "" {
+		p.what = "reads of the leader replaying the WAL: " + rw
 		return p, nil
 	}
 	p.what, p.enc = m.DiffDumps(p.live, rd, "leader (live)", "leader replaying the WAL")
@@ -84,10 +129,10 @@ func prepare(e *m.LeaderEngine) (*prepared, error) {
 }
 
 // compareRoutes applies the leader's log by the other routes and compares the dumps.
-func compareRoutes(e *m.LeaderEngine, pre *prepared, cut, lag int) (what string, encDiffs int, harness error) {
+func compareRoutes(e *m.LeaderEngine, pre *prepared, dem *demanded, cut, lag int) (what string, encDiffs int, harness error) {
 	if pre == nil {
 		var err error
-		if pre, err = prepare(e); err != nil {
+		if pre, err = prepare(e, dem); err != nil {
 			return "", 0, err
 		}
 	}
@@ -105,6 +150,20 @@ func compareRoutes(e *m.LeaderEngine, pre *prepared, cut, lag int) (what string,
 		w, enc := m.DiffDumps(live, d, "leader (live)", name)
 		encDiffs += enc
 		return w
+	}
+	tm := e.TsMap()
+	reads := func(name string, db kv.DB, want *m.Step) string {
+		if dem == nil || want == nil {
+			return ""
+		}
+		if w := m.CheckReads(db, tm, want); w != "" {
+			return "reads of the " + name + ": " + w
+		}
+		return ""
+	}
+	var atCut, final *m.Step
+	if dem != nil {
+		atCut, final = dem.byOff[cut], dem.final
 	}
 	// follower
 	f1, err := m.NewFollower("default", term)
@@ -134,9 +193,15 @@ func compareRoutes(e *m.LeaderEngine, pre *prepared, cut, lag int) (what string,
 	if err := f1.WaitApplied(int64(cut)); err != nil {
 		return "route follower: " + err.Error(), encDiffs, nil
 	}
+	if w := reads(fmt.Sprintf("follower that applied up to offset %d (nothing flushed since it started)", cut), f1.DB(), atCut); w != "" {
+		return w, encDiffs, nil
+	}
 	chunks, err := f1.Chunks()
 	if err != nil {
 		return "snapshot of the follower's DB after offset " + fmt.Sprint(cut) + ": " + err.Error(), encDiffs, nil
+	}
+	if w := reads(fmt.Sprintf("follower that applied up to offset %d, after the snapshot flushed its database", cut), f1.DB(), atCut); w != "" {
+		return w, encDiffs, nil
 	}
 	for i := cut + 2; i < n; i++ {
 		if err := f1.Append(entries[i], cm(entries[i].Offset, int64(cut))); err != nil {
@@ -156,6 +221,9 @@ func compareRoutes(e *m.LeaderEngine, pre *prepared, cut, lag int) (what string,
 		return "", 0, err
 	}
 	if w := check("follower", fd); w != "" {
+		return w, encDiffs, nil
+	}
+	if w := reads("follower", f1.DB(), final); w != "" {
 		return w, encDiffs, nil
 	}
 	// snapshot after `cut` + the rest
@@ -178,8 +246,31 @@ func compareRoutes(e *m.LeaderEngine, pre *prepared, cut, lag int) (what string,
 	if err != nil {
 		return "", 0, err
 	}
-	if w := check(fmt.Sprintf("follower installed from a snapshot after offset %d (%d chunks)", cut, len(chunks)), sd); w != "" {
+	f2name := fmt.Sprintf("follower installed from a snapshot after offset %d (%d chunks)", cut, len(chunks))
+	if w := check(f2name, sd); w != "" {
 		return w, encDiffs, nil
+	}
+	if w := reads(f2name, f2.DB(), final); w != "" {
+		return w, encDiffs, nil
+	}
+	// restart of both followers: close (the database flushes) and re-create on the same directories
+	for _, x := range []struct {
+		f    *m.Follower
+		name string
+	}{{f1, "follower, restarted"}, {f2, f2name + ", restarted"}} {
+		if err := x.f.Reopen(); err != nil {
+			return "route reopen (" + x.name + "): " + err.Error(), encDiffs, nil
+		}
+		d, err := x.f.Dump()
+		if err != nil {
+			return "", 0, err
+		}
+		if w := check(x.name, d); w != "" {
+			return w, encDiffs, nil
+		}
+		if w := reads(x.name, x.f.DB(), final); w != "" {
+			return w, encDiffs, nil
+		}
 	}
 	return "", encDiffs, nil
 }
@@ -205,13 +296,14 @@ func replayOne(beh []m.Step, rec func(*m.Step)) (o outcome) {
 		want := &beh[i]
 		if want.A == "Routes" {
 			// (a group: the same sequence with every route choice TLC made for it)
+			dem := demandedOf(beh[:i], want)
 			if pre == nil {
-				if pre, err = prepare(e); err != nil {
+				if pre, err = prepare(e, dem); err != nil {
 					o.harness = err
 					return o
 				}
 			}
-			what, enc, herr := compareRoutes(e, pre, want.Off, want.Ts)
+			what, enc, herr := compareRoutes(e, pre, dem, want.Off, want.Ts)
 			o.routes++
 			o.enc += enc
 			if herr != nil {
@@ -276,6 +368,7 @@ type result struct {
 	Steps      int        `json:"steps"`
 	Routes     int        `json:"routes"`
 	EncDiffs   int        `json:"notification_encodings_differing"`
+	Bad        int        `json:"mismatching_sequences"`
 	Mismatches []mismatch `json:"mismatches"`
 }
 
@@ -398,6 +491,7 @@ func cmdReplay(args []string) int {
 	}
 	res.Behaviours = nLines
 	res.Sequences = len(order)
+	res.Bad = bad
 	b, _ := json.Marshal(res)
 	if err := os.WriteFile(*out, b, 0o644); err != nil {
 		fmt.Fprintln(os.Stderr, err)
@@ -408,15 +502,24 @@ func cmdReplay(args []string) int {
 
 // ---------------------------------------------------------------- random request streams
 
-var keyPool = []string{"a", "b", "a/b", "a/c", "b/a", "c", "a/b/c", "~", "a.", "B"}
-var boundPool = []string{"", "a", "a/", "a//", "b", "c", "s", "s.", "t/", "t/~", "z", "~~"}
+var keyPool = []string{"a", "b", "a/b", "a/c", "b/a", "c", "a/b/c", "~", "a.", "B", "a0", "a-"}
+var boundPool = []string{"", "a", "a/", "a//", "a.", "a0", "b", "c", "s", "s.", "t/", "t/~", "z", "~~"}
+
+// value numbers: one in four carries a size (1, 8 or 70 KB: a record of its own storage block)
+func randomVal(rng *rand.Rand) int {
+	v := 1 + rng.Intn(900)
+	if rng.Intn(4) == 0 {
+		v += m.BigValue * []int{1, 8, 70}[rng.Intn(3)]
+	}
+	return v
+}
 
 func randomReq(rng *rand.Rand, sess []int, next int) m.Req {
 	r := m.Req{Puts: []m.Put{}, Dels: []m.Del{}, Rngs: []m.Rng{}}
 	for n := 1 + rng.Intn(4); n > 0; n-- {
 		switch x := rng.Intn(12); {
 		case x < 7:
-			p := m.Put{Key: m.K(keyPool[rng.Intn(len(keyPool))]), Val: 1 + rng.Intn(900), Exp: m.NoExp, Sess: m.NoSess, Deltas: []int{}, Idx: []m.IdxE{}}
+			p := m.Put{Key: m.K(keyPool[rng.Intn(len(keyPool))]), Val: randomVal(rng), Exp: m.NoExp, Sess: m.NoSess, Deltas: []int{}, Idx: []m.IdxE{}}
 			switch y := rng.Intn(10); {
 			case y < 2:
 				p.Exp = -1
@@ -524,7 +627,9 @@ func cmdDrive(args []string) int {
 		res.Steps += len(beh)
 		if ok && e.NextOffset() > 0 {
 			cut, lag := rng.Intn(e.NextOffset()), []int{0, 1, 3}[rng.Intn(3)]
-			what, encd, herr := compareRoutes(e, nil, cut, lag)
+			// (what the leader showed through its public reads after every call - judged by DbTrace below - is
+			// what the other replicas are asked for)
+			what, encd, herr := compareRoutes(e, nil, demandedOf(beh, &beh[len(beh)-1]), cut, lag)
 			if herr != nil {
 				fmt.Fprintln(os.Stderr, "harness failure:", herr)
 				return 2
@@ -564,13 +669,15 @@ func replayArgs(beh []m.Step) string {
 		return ""
 	}
 	defer e.Close()
+	var done []m.Step
 	for i := range beh {
 		if beh[i].A == "Routes" {
-			what, _, _ := compareRoutes(e, nil, beh[i].Off, beh[i].Ts)
+			what, _, _ := compareRoutes(e, nil, demandedOf(done, finalOf(&beh[i], done)), beh[i].Off, beh[i].Ts)
 			return what
 		}
 		st := argsOf(&beh[i])
 		_ = m.Exec(e, &st, keyPool)
+		done = append(done, st)
 	}
 	return ""
 }
@@ -612,11 +719,16 @@ func cmdRerun(args []string) int {
 	}
 	defer e.Close()
 	var res result
+	var done []m.Step
 	probeKeys := m.KeysOf(mm.Behaviour)
 	for i := range mm.Behaviour {
 		want := &mm.Behaviour[i]
 		if want.A == "Routes" {
-			what, encd, herr := compareRoutes(e, nil, want.Off, want.Ts)
+			dem := demandedOf(mm.Behaviour[:i], want)
+			if final := finalOf(want, done); final != want {
+				dem = demandedOf(done, final)
+			}
+			what, encd, herr := compareRoutes(e, nil, dem, want.Off, want.Ts)
 			if herr != nil {
 				fmt.Fprintln(os.Stderr, "harness failure:", herr)
 				return 2
@@ -634,6 +746,7 @@ func cmdRerun(args []string) int {
 		}
 		st.Normalize()
 		_ = enc.Encode(&st)
+		done = append(done, st)
 		if st.Err != "" && st.Err != "REJECTED" {
 			break
 		}
@@ -646,9 +759,214 @@ func cmdRerun(args []string) int {
 	return 0
 }
 
+// ---------------------------------------------------------------- live leader, replication factor 3
+
+type groupOut struct {
+	noTrace bool // the lines are the log only (not a recording TLC can judge)
+	lines   []m.Step
+	entries int
+	what    string
+	err     error
+}
+
+// liveGroup: one shard (leader + two followers), the requests issued by concurrent writers; returns the
+// recording for DbLogTrace and the difference between the leader's dump and the in-order replay of its log.
+func liveGroup(mine []*proto.WriteRequest, writers int, record bool) (o groupOut) {
+	r, err := m.NewRF3()
+	if err != nil {
+		o.err = err
+		return o
+	}
+	defer r.Close()
+	if failed, first := r.WriteAll(mine, writers); failed > 0 {
+		o.err = fmt.Errorf("%d of %d writes failed, first: %v", failed, len(mine), first)
+		return o
+	}
+	entries, err := r.LogEntries()
+	if err != nil {
+		o.err = fmt.Errorf("reading the leader's log: %v", err)
+		return o
+	}
+	if len(entries) != len(mine) {
+		o.err = fmt.Errorf("the leader's log holds %d entries, %d requests were answered", len(entries), len(mine))
+		return o
+	}
+	// the same log replayed in order by a fresh leader
+	live, err := r.LiveDump()
+	if err != nil {
+		o.err = err
+		return o
+	}
+	r.SetNext(len(entries))
+	if rd, err := r.ReplayedFromWal(); err != nil {
+		o.what = "route wal (new leader replaying the log of the RF=3 leader in order): " + err.Error()
+	} else {
+		o.what, _ = m.DiffDumps(live, rd, "leader (applied live, entries committed by the acks of two followers)", "leader replaying the same log in order")
+	}
+	if !record {
+		return o
+	}
+	r.LogicalTimes(entries)
+	tm := r.TsMap()
+	o.entries = len(entries)
+	o.lines = append(o.lines, m.Step{A: "Reset", Off: -1, Lv: -1})
+	for _, le := range entries {
+		ws, err := m.EntryRequests(le)
+		if err == nil && len(ws) != 1 {
+			err = fmt.Errorf("log entry %d holds %d write requests", le.Offset, len(ws))
+		}
+		if err != nil {
+			o.err = err
+			return o
+		}
+		o.lines = append(o.lines, m.Step{A: "Entry", Off: int(le.Offset), Ts: tm(le.Timestamp), Req: m.ReqFromProto(ws[0])})
+	}
+	// the notification batch the leader serves for every offset, the state it exposes (when the dumps already
+	// differ, trouble in reading the leader is not the harness's: the log alone is kept for the replay file)
+	for i, le := range entries {
+		nb, err := r.Notifications(int(le.Offset))
+		if err != nil {
+			if o.what == "" {
+				o.err = err
+			}
+			o.noTrace = true
+			return o
+		}
+		line := &o.lines[i+1]
+		line.Nf = m.NotifsFromProto(nb)
+		if nb.Offset != le.Offset || nb.Timestamp != le.Timestamp {
+			line.Err = fmt.Sprintf("INCONSISTENT: the notification batch served for offset %d carries offset %d and timestamp %d, the entry has timestamp %d",
+				le.Offset, nb.Offset, nb.Timestamp, le.Timestamp)
+		}
+	}
+	state := m.Step{A: "State", Off: -1}
+	if problems := m.Observe(r.LeaderEngine, &state, nil); len(problems) > 0 {
+		state.Err = "INCONSISTENT: " + strings.Join(problems, "; ")
+	}
+	o.lines = append(o.lines, state)
+	return o
+}
+
+// cmdLive: the write requests of the behaviours TLC drew (OxiaDbBlocks: overlapping keys, conditional puts,
+// bulk requests that take long to apply next to small ones) are issued by concurrent writers to a real
+// leader whose entries are committed by the racing acknowledgements of two real followers.  The leader's
+// log and the state it exposes afterwards are recorded for DbLogTrace.tla (TLC folds Apply over the log);
+// the same log is replayed in order by a fresh leader and the two dumps are compared.
+func cmdLive(args []string) int {
+	fs := flag.NewFlagSet("live", flag.ExitOnError)
+	in := fs.String("in", "", "ndjson of behaviours (their write requests are used)")
+	out := fs.String("out", "trace.ndjson", "")
+	resOut := fs.String("res", "", "result json")
+	groups := fs.Int("groups", 4, "independent shards (each gets a share of the requests)")
+	writers := fs.Int("writers", 4, "concurrent writers per shard")
+	maxReqs := fs.Int("max", 2000, "requests used at most")
+	_ = fs.Parse(args)
+	m.Quiet()
+	f, err := os.Open(*in)
+	if err != nil {
+		fmt.Fprintln(os.Stderr, err)
+		return 2
+	}
+	sc := bufio.NewScanner(f)
+	sc.Buffer(make([]byte, 1<<20), 1<<28)
+	var reqs []m.Req
+	seen := map[string]bool{}
+	for sc.Scan() && len(reqs) < *maxReqs {
+		var beh []m.Step
+		if len(sc.Bytes()) == 0 {
+			continue
+		}
+		if err := json.Unmarshal(sc.Bytes(), &beh); err != nil {
+			fmt.Fprintln(os.Stderr, "bad behaviour line:", err)
+			return 2
+		}
+		for i := range beh {
+			if (beh[i].A != "Write" && beh[i].A != "Entry") || beh[i].Err != "" || !m.WellFormed(&beh[i].Req) {
+				continue
+			}
+			kb, _ := json.Marshal(beh[i].Req)
+			if seen[string(kb)] {
+				continue
+			}
+			seen[string(kb)] = true
+			reqs = append(reqs, beh[i].Req)
+		}
+	}
+	f.Close()
+	outs := make([]groupOut, *groups)
+	var wg sync.WaitGroup
+	for g := 0; g < *groups; g++ {
+		wg.Add(1)
+		go func(g int) {
+			defer wg.Done()
+			var mine []*proto.WriteRequest
+			for i := g; i < len(reqs); i += *groups {
+				mine = append(mine, reqs[i].Proto())
+			}
+			if len(mine) == 0 {
+				return
+			}
+			outs[g] = liveGroup(mine, *writers, true)
+			if outs[g].err != nil || outs[g].what == "" {
+				return
+			}
+			// a difference is reported when it shows again on re-execution (the interleaving is the scheduler's:
+			// three more rounds of the same requests)
+			again := 0
+			for try := 0; try < 3; try++ {
+				if o2 := liveGroup(mine, *writers, false); o2.err == nil && o2.what != "" {
+					again++
+				}
+			}
+			if again == 0 {
+				outs[g].err = fmt.Errorf("a difference between the live leader and the replay of its log did not show again in 3 re-executions: %s", outs[g].what)
+				return
+			}
+			outs[g].what += fmt.Sprintf(" (a difference showed again in %d of 3 re-executions of the same requests)", again)
+		}(g)
+	}
+	wg.Wait()
+	fo, err := os.Create(*out)
+	if err != nil {
+		fmt.Fprintln(os.Stderr, err)
+		return 2
+	}
+	defer fo.Close()
+	w := bufio.NewWriterSize(fo, 1<<20)
+	defer w.Flush()
+	enc := json.NewEncoder(w)
+	var res result
+	for g := range outs {
+		if outs[g].err != nil {
+			fmt.Fprintln(os.Stderr, "harness failure:", outs[g].err)
+			return 2
+		}
+		for i := range outs[g].lines {
+			outs[g].lines[i].Normalize()
+			if !outs[g].noTrace {
+				_ = enc.Encode(&outs[g].lines[i])
+			}
+		}
+		if len(outs[g].lines) > 0 {
+			res.Sequences++
+		}
+		res.Steps += outs[g].entries
+		if outs[g].what != "" {
+			res.Bad++
+			res.Mismatches = append(res.Mismatches, mismatch{Mode: "rf3", Kind: "live", Behaviour: outs[g].lines, Step: len(outs[g].lines) - 1, What: outs[g].what})
+		}
+	}
+	b, _ := json.Marshal(res)
+	if err := os.WriteFile(*resOut, b, 0o644); err != nil {
+		fmt.Fprintln(os.Stderr, err)
+		return 2
+	}
+	return 0
+}
+
 func main() {
 	if len(os.Args) < 2 {
-		fmt.Fprintln(os.Stderr, "usage: routecheck replay|drive|rerun ...")
+		fmt.Fprintln(os.Stderr, "usage: routecheck replay|drive|rerun|live ...")
 		os.Exit(2)
 	}
 	switch os.Args[1] {
@@ -658,6 +976,8 @@ func main() {
 		os.Exit(cmdDrive(os.Args[2:]))
 	case "rerun":
 		os.Exit(cmdRerun(os.Args[2:]))
+	case "live":
+		os.Exit(cmdLive(os.Args[2:]))
 	}
 	os.Exit(2)
 }
